@@ -17,18 +17,18 @@ LEVEL_TEXT = ('all multisets of up to 3 (thorough: 4) entries drawn from 15 date
               'future, missing, garbage, empty, impossible calendar date, fractional seconds, trailing space, un-padded, duplicated lines) are '
               'purged by the real trash-empty for 7 DAYS values in 3 kinds of trash dir; purged set must equal the reference set, removals whole, survivors byte-identical')
 LEVEL_NOTE = 'trusted: R6 (reference age rule), the fake clock / TRASH_DATE seams; time zones and DST are out of scope (naive local times, as in the code)'
-RULE = ('DAYS in {none,0,1,2,7,365,4000000} x multisets of size 1..3 (thorough 1..4) over 15 date classes x {home, .Trash/uid, .Trash-uid} x clock '
+RULE = ('DAYS in {none,0,1,2,7,365,4000000} x multisets of size 1..3 (thorough 1..4) over 15 date classes x {home, .Trash/uid, .Trash-uid, entries spread over all three} x clock '
         'seam {fake datetime.now, TRASH_DATE}; each world also holds an orphan payload and a non-.trashinfo file; non-trivial = at least one entry was '
         'examined against the threshold; distinct = (DAYS, date class, observed state) triples')
 NOW = '2024-05-06T07:08:09'
 DAYS = [None, 0, 1, 2, 7, 365, 4000000]
 CLASSES = ['lim-1s', 'lim', 'lim+1s', 'now', 'farpast', 'future', 'missing', 'garbage', 'emptyval', 'feb30', 'fraction',
            'trailsp', 'unpadded', 'two:old,bad', 'two:bad,old']
-TDS = ['home', 'top', 'alt']
+TDS = ['home', 'top', 'alt', 'mixed']
 
 
 def dimensions(tier):
-    return {'days': len(DAYS), 'date_classes': len(CLASSES), 'multiset_size': 3 if tier != 'thorough' else 4, 'trash_dir': 3, 'seam': 2}
+    return {'days': len(DAYS), 'date_classes': len(CLASSES), 'multiset_size': 3 if tier != 'thorough' else 4, 'trash_dir': 4, 'seam': 2}
 
 
 def cases(tier):
@@ -65,20 +65,25 @@ def date_lines(cls, days):
 
 def run_case(c):
     uid = 0
-    td = {'home': scen.HOME_TRASH, 'top': '/mnt/v1/.Trash/0', 'alt': '/mnt/v1/.Trash-0'}[c['td']]
+    tdmap = {'home': scen.HOME_TRASH, 'top': '/mnt/v1/.Trash/0', 'alt': '/mnt/v1/.Trash-0'}
+    td = tdmap.get(c['td'], scen.HOME_TRASH)
+    tds = [td] if c['td'] != 'mixed' else [scen.HOME_TRASH, '/mnt/v1/.Trash-0', '/mnt/v1/.Trash/0']
     W = scen.base_world(mounts=['/', '/mnt/v1'], cwd='/')
     W.dir('/mnt/v1/.Trash', mode=0o1777)
-    scen.add_trash_dir(W, td)
+    for t in tds:
+        scen.add_trash_dir(W, t)
     ents = []
     for i, ci in enumerate(c['ms']):
         cls = CLASSES[ci]
-        raw = '[Trash Info]\nPath=%s\n' % ('/home/u/w/e%d' % i if c['td'] == 'home' else 'w/e%d' % i)
+        t = tds[i % len(tds)]
+        raw = '[Trash Info]\nPath=%s\n' % ('/home/u/w/e%d' % i if t == scen.HOME_TRASH else 'w/e%d' % i)
         raw += ''.join(l + '\n' for l in date_lines(cls, c['days']))
         nm = 'e%d' % i
-        scen.add_trashed(W, td, nm, None, raw=raw, payload=('file', 'tree', 'ldir', 'empty')[i % 4])
-        ents.append((nm, cls, raw.encode()))
-    W.file(td + '/files/orphan', 'orphan payload\n')
-    W.file(td + '/info/README', 'not a trashinfo\n')
+        scen.add_trashed(W, t, nm, None, raw=raw, payload=('file', 'tree', 'ldir', 'empty')[i % 4])
+        ents.append((nm, cls, raw.encode(), t))
+    for t in tds:
+        W.file(t + '/files/orphan', 'orphan payload\n')
+        W.file(t + '/info/README', 'not a trashinfo\n')
     argv = ['trash-empty'] + ([str(c['days'])] if c['days'] is not None else [])
     env = dict(W.env)
     now = NOW
@@ -93,9 +98,9 @@ def run_case(c):
     nts = set()
     worst = None
     dcls = 'none' if c['days'] is None else ('huge' if c['days'] > 100000 else str(c['days']))
-    for nm, cls, raw in ents:
+    for nm, cls, raw, t in ents:
         want = age.verdict(raw, NOW, c['days'])
-        got = scen.entry_state(before, after, td, nm)
+        got = scen.entry_state(before, after, t, nm)
         detail['entries'].append([nm, cls, want, got])
         nts.add('%s|%s|%s' % (dcls, cls, got))
         if got.startswith('half'):
@@ -104,9 +109,9 @@ def run_case(c):
             worst = worst or ('C10|kept-but-older-than-limit|cls=%s|days=%s' % (cls, dcls), 'kept-wrongly')
         elif want == 'keep' and got != 'kept':
             worst = worst or ('C10|purged-but-not-older-than-limit|cls=%s|days=%s' % (cls, dcls), 'purged-wrongly')
-    if c['days'] is None and world.under(after, td + '/files/orphan'):
+    if c['days'] is None and any(world.under(after, t + '/files/orphan') for t in tds):
         worst = worst or ('C10|orphan-payload-survives-full-empty', 'orphan-survives')
-    frame = [p for p in world.diff(before, after) if not p.startswith(td + '/')]
+    frame = [p for p in world.diff(before, after) if not any(p.startswith(t + '/') for t in tds)]
     if frame:
         worst = worst or ('C10|frame-changed', 'frame')
         detail['frame'] = frame[:6]
